@@ -12,6 +12,15 @@ Final(o) == [a |-> o.a, arg |-> o.arg, exp |-> o.exp]
 GenInit == InitX /\ hist = <<Call(obs)>>
 GenSpecX == GenInit /\ [][NextStore /\ hist' = IF nops' # nops THEN Append(hist, Call(obs')) ELSE hist]_<<xvars, hist>>
 GenSpecP == GenInit /\ [][NextPathX /\ hist' = Append(hist, Call(obs'))]_<<xvars, hist>>
-EmitX == nops' = nops \/ PrintT(<<"BEHAV", ToJson(Append(hist, Final(obs')))>>)
+\* The implementation may keep more than the text of a value (the terminator a message sent along with it): two
+\* histories that leave the same map are kept apart when they differ in such calls, so that both are continued
+RawSent == {<<hist[i].arg.cfg, hist[i].arg.els, hist[i].arg.val>> :
+              i \in {j \in DOMAIN hist : hist[j].a = "msgset" /\ HasCh(hist[j].arg.val, 0)}}
+ViewG == <<tree, st, draft, doc2, nops, narr, RawSent>>
+\* (single calls made before any document is used are the same calls whatever has been drafted: printed from the
+\* states with an empty draft only)
+EmitX == \/ nops' = nops
+         \/ narr' = 0 /\ (dnn > 0 \/ doc2 # EmptyDoc)
+         \/ PrintT(<<"BEHAV", ToJson(Append(hist, Final(obs')))>>)
 EmitP == obs'.a \notin {"pfputs", "pdata"} \/ PrintT(<<"BEHAV", ToJson(Append(hist, Final(obs')))>>)
 =============================================================================
